@@ -143,7 +143,8 @@ func c16Row(r *core.Rng, depth int) []any {
 	row := []any{randCase(r, c16Labels[r.Intn(5)])}
 	if r.Chance(1, 10) {
 		// first elements that merely begin like a label
-		row[0] = []string{"Conditions", "CONDITIONAL", "condition:", "conditionconditioncondition", "ANDROMEDA", "ORacle", "NOTE", "LISTING", "BASICS", "Conditio"}[r.Intn(10)]
+		row[0] = []string{"Conditions", "CONDITIONAL", "condition:", "conditionconditioncondition", "ANDROMEDA", "ORacle", "NOTE", "LISTING", "BASICS", "Conditio",
+			"L\u0130ST", "l\u0130st", "COND\u0130T\u0130ON", "BAS\u0130C", "\u00c4ND"}[r.Intn(15)] // (incl. spellings whose upper and lower case forms are not each other's)
 	}
 	width := r.Range(0, 5)
 	if r.Chance(1, 12) {
@@ -350,6 +351,31 @@ func c16Run(c *core.Ctx, idx int) {
 				if !okNew {
 					c.Violatef("live-receiver-element", desc, "a successful Marshal into a live receiver stored %s, not a decoded Stack or Condition: %s", Show(ne), shown)
 					return
+				}
+				// ... and it is the decoding of THIS row: a stack of the labelled kind holding the row's entries, a BASIC
+				// stack of all entries under an unrecognised first element, a Condition for a CONDITION row
+				if len(eff) > 0 {
+					if lab, isStr := eff[0].(string); isStr {
+						ds, isS := AsStack(ne)
+						up := strings.ToUpper(lab)
+						switch up {
+						case "AND", "OR", "NOT", "LIST", "BASIC":
+							if !isS || ds.Kind() != up || ds.Len() != len(eff)-1 {
+								c.Violatef("live-receiver-element", desc, "Marshal of a %q row into a live receiver stored %s (expected a %s stack of %d entries): %s", lab, Show(ne), up, len(eff)-1, shown)
+								return
+							}
+						case "CONDITION":
+							if _, isC := AsCond(ne); !isC {
+								c.Violatef("live-receiver-element", desc, "Marshal of a CONDITION row into a live receiver stored %s: %s", Show(ne), shown)
+								return
+							}
+						default:
+							if !isS || ds.Kind() != "BASIC" || ds.Len() != len(eff) {
+								c.Violatef("live-receiver-element", desc, "Marshal of a row whose first element %q is no label into a live receiver stored %s (expected a BASIC stack of %d entries): %s", lab, Show(ne), len(eff), shown)
+								return
+							}
+						}
+					}
 				}
 			}
 			if err == nil && recv.Len() != before+1 {
